@@ -525,4 +525,4 @@ def run(ctx):
             r12.inst({'native': m.group(1), 'site': mirq.site(b, i, j), 'computed_by': sorted(calls), 'from_both_operands': {2, 3} <= sl}, ok=ok, kind=(b.nid, i, j))
             if not ok:
                 r12.fail('int/%s/result-not-from-operator' % m.group(1), mirq.site(b, i, j), 'the native `%s` returns an integer that is not %s(a, b) (computed by %s, from %s): a shortcut result is right only if it equals the operator\'s result for every pair, including operands of opposite sign and of different widths' % (m.group(1), want, sorted(calls) or 'no call', 'both operands' if {2, 3} <= sl else 'one operand'))
-    r12.need(10)
+    r12.need(6)
